@@ -367,7 +367,10 @@ pub fn analyse(sc: &Scenario, out: &RunOutput) -> Analysis {
     let harness_error = match res.outcome {
         Outcome::Completed => None,
         Outcome::RootPanicked => Some(format!("root driver panicked: {:?}", res.root_panic)),
-        Outcome::Deadlock => Some("simulator deadlock".to_string()),
+        Outcome::Deadlock => {
+            st.cut_short = true;
+            None
+        }
         Outcome::StepLimit => {
             st.cut_short = true;
             None
@@ -378,6 +381,9 @@ pub fn analyse(sc: &Scenario, out: &RunOutput) -> Analysis {
         }
     };
 
+    if res.outcome == Outcome::Deadlock {
+        push("C14", "deadlock".into(), "every simulated thread (services and application) is blocked for ever: no timer, datagram or lock release can wake any of them".to_string());
+    }
     if let (Outcome::Spin, Some(tid)) = (res.outcome, res.spin_tid) {
         // which datagram was the thread handling?
         let last = res.trace.iter().rev().find(|e| e.tid == tid && matches!(e.kind, EvKind::Recv { .. }));
@@ -461,6 +467,9 @@ pub fn analyse(sc: &Scenario, out: &RunOutput) -> Analysis {
                 }
             }
             ObsItem::FaultsOff { seq } => faults_off_seq = *seq,
+            ObsItem::AppStuck { node, scope } => {
+                push("C14", format!("api-call-never-returns:{}", scope.trim_start_matches("probe:")), format!("node {}: the application's call {} had not returned 12 simulated seconds after everything else ended (the store is not usable)", node, scope));
+            }
             _ => {}
         }
     }
@@ -483,7 +492,7 @@ pub fn analyse(sc: &Scenario, out: &RunOutput) -> Analysis {
     let mut windows: HashMap<u32, Window> = HashMap::new();
     let mut dgram_exact: HashMap<u32, bool> = HashMap::new();
     let mut last_op_exact: HashMap<u32, bool> = HashMap::new();
-    let mut expect_known: HashMap<u64, (u32, Option<Vec<InstObs>>, Vec<InstObs>, bool)> = HashMap::new();
+    let mut expect_known: HashMap<u64, (u32, Option<Vec<InstObs>>, Vec<InstObs>, bool, Vec<String>)> = HashMap::new();
     let mut expect_store: HashMap<u64, (u32, BTreeSet<RecKey>, BTreeSet<RecKey>, BTreeSet<RecKey>, bool)> = HashMap::new();
     let mut lock_wait: HashMap<u32, bool> = HashMap::new();
     let mut probe_dgram: HashMap<u32, u16> = HashMap::new();
@@ -766,8 +775,8 @@ pub fn analyse(sc: &Scenario, out: &RunOutput) -> Analysis {
                                 }
                                 (AppOp::GetKnown, false) if false => {}
                                 (AppOp::GetKnown, false) => {
-                                    let (exp, sup, exact) = expected_known(m, lt, &mut st);
-                                    expect_known.insert(mark_seq, (n as u32, exp, sup, exact));
+                                    let (exp, sup, exact, expired) = expected_known(m, lt, &mut st);
+                                    expect_known.insert(mark_seq, (n as u32, exp, sup, exact, expired));
                                 }
                                 (AppOp::DumpStore, false) => {
                                     let auth: BTreeSet<RecKey> = m.auth.keys().cloned().collect();
@@ -938,7 +947,7 @@ pub fn analyse(sc: &Scenario, out: &RunOutput) -> Analysis {
     }
 
     // ---- get_known_services / store dumps against the expectations taken under the lock
-    for (mark_seq, (node, exp, superset, exact)) in &expect_known {
+    for (mark_seq, (node, exp, superset, exact, expired_names)) in &expect_known {
         let Some((_, got)) = known_obs.get(mark_seq) else { continue };
         let m = &models[*node as usize];
         let own_name = match &sc.nodes[*node as usize].kind {
@@ -954,6 +963,14 @@ pub fn analyse(sc: &Scenario, out: &RunOutput) -> Analysis {
             }
         }
         let _ = m;
+        // C20 (whole system): an instance all of whose records have expired must not be reported
+        if *exact {
+            for g in got.iter() {
+                if expired_names.contains(&g.name) {
+                    findings.push(Finding { prop: "C20", sig: "expired-instance-reported".into(), detail: format!("node {}: get_known_services reports instance {:?} although the TTL of every record received for it has elapsed", node, g.name) });
+                }
+            }
+        }
         match (exp, exact) {
             (Some(exp), true) => {
                 st.known_exact += 1;
@@ -1097,12 +1114,16 @@ pub fn analyse(sc: &Scenario, out: &RunOutput) -> Analysis {
 
 /// Expected result of get_known_services at local time `now`:
 /// (exact expectation if unambiguous, superset of justifiable instances, exact?)
-fn expected_known(m: &NodeModel, now: u64, st: &mut OStats) -> (Option<Vec<InstObs>>, Vec<InstObs>, bool) {
+fn expected_known(m: &NodeModel, now: u64, st: &mut OStats) -> (Option<Vec<InstObs>>, Vec<InstObs>, bool, Vec<String>) {
     let mut exact = !m.fuzzy_ingest && !m.removed;
     let mut groups: BTreeMap<Labels, Vec<&RecKey>> = BTreeMap::new();
     let mut all_groups: BTreeMap<Labels, Vec<&RecKey>> = BTreeMap::new();
     let mut had_expired = false;
+    let mut expired_owners: BTreeSet<Labels> = BTreeSet::new();
     for (k, e) in &m.cache {
+        if e.expires < now && !e.optional {
+            expired_owners.insert(k.owner.clone());
+        }
         if e.expires >= now {
             all_groups.entry(k.owner.clone()).or_default().push(k);
         }
@@ -1139,7 +1160,13 @@ fn expected_known(m: &NodeModel, now: u64, st: &mut OStats) -> (Option<Vec<InstO
         }
     }
     out.sort_by(|a, b| a.name.cmp(&b.name));
-    (if exact { Some(out) } else { None }, sup, exact)
+    // owners all of whose records have expired (none live, none at the boundary)
+    let expired_names: Vec<String> = expired_owners
+        .iter()
+        .filter(|o| !all_groups.contains_key(*o) && o.len() > m.service.len())
+        .map(|o| o[..o.len() - m.service.len()].iter().map(|l| String::from_utf8_lossy(l).to_string()).collect::<Vec<_>>().join("."))
+        .collect();
+    (if exact { Some(out) } else { None }, sup, exact, expired_names)
 }
 
 fn compare_instances(prop: &'static str, what: &str, node: u32, exp: &[InstObs], got: &[InstObs], findings: &mut Vec<Finding>) {
